@@ -263,4 +263,99 @@ theorem skelEnc_contract (sts : Nat → St) (fuzz : Bool) (fsz : Int) (ors : Nat
       exact hpost.retHi
   · cases h
 
+/-! ### a concrete instance (non-vacuity of `SkelOk` and of a successful multistream call) -/
+
+/-- A 48 kHz mono VBR encoder at the minimum bitrate (500 b/s): every 20 ms call takes the low-budget
+    path (`bitrate < 3·50·8`) whatever `curr_max`, so the skeleton's `ok` does not depend on inner
+    contracts and can be established for ALL `curr_max`. -/
+def lowSt : EncSkel.St :=
+  { fs := 48000, channels := 1, application := 2049, useVbr := 1, userBitrate := 500, forceChannels := -1000,
+    signalType := -1000, userBandwidth := -1000, maxBandwidth := 1105, userForcedMode := -1000, lfe := 0, useDtx := 0,
+    fecConfig := 0, variableDuration := 5000, complexity := 5, lossPerc := 0, useInBandFEC := 0, energyMasking := 0,
+    streamChannels := 1, mode := 1002, prevMode := 1002, prevChannels := 1, prevFramesize := 960, bandwidth := 1105,
+    autoBandwidth := 1105, silkBwSwitch := 0, first := 0, voiceRatio := -1, detectedBandwidth := 0, nbNoActivity := 0,
+    nonfinalFrame := 0, bitrateBps := 500, toMono := 0, lbrrCoded := 0, allowBwSwitch := 0, inWBmode := 0,
+    opusCanSwitch := 0, silkUseDtx := 0 }
+def lowOr (cm : Int) : EncSkel.NatOr :=
+  { isSilence := 0, aValid := 0, aBandwidth := 20, vr0 := 10, vr1 := 10, vr2 := 10, modeVoice := 64000, modeMusic := cm,
+    rands := [], frames := [] }
+
+
+theorem lowOk (cm : Int) : (EncSkel.encodeNative lowSt false 960 cm (lowOr cm)).ok = true ∧
+    (if cm ≤ 0 then ([] : List Bytes) else [[]]).map List.length = (EncSkel.encodeNative lowSt false 960 cm (lowOr cm)).pkt.lens := by
+  by_cases h : cm ≤ 0
+  · have he : entryCheck lowSt 960 cm = some OPUS_BAD_ARG := by
+      unfold entryCheck; simp; omega
+    unfold EncSkel.encodeNative; rw [he]; simp [natErr, h]
+  · have he : entryCheck lowSt 960 cm = none := by
+      unfold entryCheck
+      simp [lowSt]; omega
+    unfold EncSkel.encodeNative; rw [he]
+    simp only
+    have hg : lowBudgetGate (budgetSt lowSt (lowOr cm) 960 cm) 960 (sizeBudget (analysisUpd lowSt (lowOr cm)) 960 cm) = true := by
+      simp [lowBudgetGate, budgetSt, sizeBudget, analysisUpd, analysisRuns, lowSt, lowOr, userBitrateToBitrate, EncDecide.OPUS_AUTO, EncDecide.OPUS_BITRATE_MAX]
+    rw [if_pos hg]
+    simp [lowBudget, h, stOk, legalFrame, lowSt, lowOr, budgetSt, analysisUpd, analysisRuns, lowLens, lowCode, lowC1, lowMode0, EncDecide.BW_NB, EncDecide.MODE_SILK_ONLY,
+      EncDecide.OPUS_AUTO, EncDecide.OPUS_BITRATE_MAX, EncDecide.MODE_CELT_ONLY, EncDecide.BW_FB, EncDecide.APP_RESTRICTED_LOWDELAY]
+
+/-- `SkelOk` is inhabited: constant state, the oracle a function of `curr_max`. -/
+theorem lowSkelOk : SkelOk (fun _ => lowSt) false 960 (fun _ cm => lowOr cm)
+    (fun _ cm => if cm ≤ 0 then [] else [[]]) := fun _ cm => lowOk cm
+
+/-- One successful iteration of the stream loop, given the per-stream packet. -/
+theorem loop_step (n : Nat) (fs100 vbr : Bool) (maxData : Int) (enc : Nat → Int → Res Bytes) (k s : Nat) (tot : Int) (acc : Bytes)
+    (hs : s < n) (p : Packet) (hv : Valid p) (hpf : RepackProofs.PadFree p)
+    (henc : enc s (currMax n s fs100 maxData tot) = .ok (serialize false p))
+    (hlen : ((serialize false p).length : Int) ≤ currMax n s fs100 maxData tot) :
+    ∃ q : Packet, loop n fs100 vbr maxData enc (k + 1) s tot acc =
+      loop n fs100 vbr maxData enc k (s + 1) (tot + ((serialize (decide (s + 1 ≠ n)) q).length : Nat))
+        (acc ++ serialize (decide (s + 1 ≠ n)) q) ∧
+      ((serialize (decide (s + 1 ≠ n)) q).length : Int) =
+        (if (!vbr && decide (s + 1 = n)) = true then maxData - tot else RepackProofs.minSize (decide (s + 1 ≠ n)) p.lens) := by
+  have hfit := fits n s hs fs100 maxData tot p hv hlen
+  obtain ⟨hcat, q, hout, _, _, hlq⟩ := stream_step 0 (duration 0 p) p hv hpf rfl (maxData - tot)
+    (decide (s + 1 ≠ n)) (!vbr && decide (s + 1 = n)) hfit
+  refine ⟨q, ?_, hlq⟩
+  rw [loop, henc]
+  simp only [hcat, hout]
+
+/-- The two-stream multistream encoder over this skeleton instance succeeds (VBR, 100-byte buffer). -/
+theorem lowExample_ok : ∃ out, encodeNative 2 48000 960 true none 100
+    (skelEnc (fun _ => lowSt) false 960 (fun _ cm => lowOr cm) (fun _ cm => if cm ≤ 0 then [] else [[]])) = .ok out := by
+  have hv : Valid ⟨0xF8, [[]], false, none⟩ :=
+    { toc_byte := by decide
+      frame_max := by intro f hf; simp only [List.mem_singleton] at hf; subst hf; decide
+      code0 := fun _ => ⟨rfl, rfl, rfl⟩
+      code1 := fun h => absurd h (by decide)
+      code2 := fun h => absurd h (by decide)
+      code3 := fun h => absurd h (by decide)
+      pad_ok := fun pd h => by cases h }
+  have hpf : RepackProofs.PadFree ⟨0xF8, [[]], false, none⟩ := RepackProofs.count_nil 1 (by decide)
+  have hser : serialize false ⟨0xF8, [[]], false, none⟩ = [0xF8] := by decide
+  have henc0 : skelEnc (fun _ => lowSt) false 960 (fun _ cm => lowOr cm)
+      (fun _ cm => if cm ≤ 0 then [] else [[]]) 0 98 = .ok [0xF8] := by decide +kernel
+  have henc1 : skelEnc (fun _ => lowSt) false 960 (fun _ cm => lowOr cm)
+      (fun _ cm => if cm ≤ 0 then [] else [[]]) 1 98 = .ok [0xF8] := by decide +kernel
+  unfold encodeNative
+  simp only
+  rw [if_neg (by decide)]
+  have hclamp : cbrClamp 2 false true 48000 960 none 100 = 100 := rfl
+  rw [show decide (48000 / 960 = 10) = false from by decide, hclamp]
+  have hc0 : currMax 2 0 false 100 0 = 98 := by decide
+  obtain ⟨q0, h0, hl0⟩ := loop_step 2 false true 100 _ 1 0 0 [] (by omega)
+    ⟨0xF8, [[]], false, none⟩ hv hpf (by rw [hser, hc0]; exact henc0) (by rw [hser, hc0]; decide)
+  rw [h0]
+  have hl0' : (serialize (decide (0 + 1 ≠ 2)) q0).length = 2 := by
+    have : RepackProofs.minSize (decide (0 + 1 ≠ 2)) (Packet.lens ⟨0xF8, [[]], false, none⟩) = 2 := by decide
+    rw [this] at hl0
+    simp only [Bool.not_true, Bool.false_and, Bool.false_eq_true, if_false] at hl0
+    omega
+  rw [hl0']
+  have hc1 : currMax 2 (0 + 1) false 100 (0 + ((2 : Nat) : Int)) = 98 := by decide
+  obtain ⟨q1, h1, _⟩ := loop_step 2 false true 100 _ 0 (0 + 1) (0 + ((2 : Nat) : Int))
+    ([] ++ serialize (decide (0 + 1 ≠ 2)) q0) (by omega)
+    ⟨0xF8, [[]], false, none⟩ hv hpf (by rw [hser, hc1]; exact henc1) (by rw [hser, hc1]; decide)
+  rw [h1]
+  exact ⟨_, rfl⟩
+
 end Opus.MsEncode
